@@ -15,7 +15,7 @@ from oracles.treecheck import flat_shape as shape
 from vlib.core import Leg, Result, exc_failure
 
 ID = 'C19'
-RULE = ('API cases: encoding e in {utf-8, latin-1, cp1252, cp1251, gbk, shift_jis, koi8-r, utf-16} x text = grammar script (6/8), GO-only batches without any semicolon (1/8), any text of the shared source mix (1/8, API only), with characters drawn from what e can encode '
+RULE = ('API cases: encoding e in {utf-8, latin-1, cp1252, cp1251, gbk, shift_jis, koi8-r, utf-16} x text = grammar script (4/8), CASE-heavy script (2/8), GO-only batches without any semicolon (1/8), any text of the shared source mix (1/8, API only), with characters drawn from what e can encode '
         '(construction) x form in {str, bytes+encoding=e, UTF-8 bytes without encoding, non-UTF-8 Latin-1 bytes without encoding, io.StringIO} x function in {parse, '
         'parsestream, split, format + drawn valid options}; results must equal those for the str form (statement texts, tree shapes, get_type). CLI cases: argv built from '
         'a drawn option set via a flag table written from --help, input as file or stdin bytes in e, output to stdout or -o; sqlparse.cli.main(argv) in-process; the '
@@ -74,7 +74,8 @@ def texts(draw, enc, wide=False):
         if draw(st.booleans()):
             text = text.rstrip() if draw(st.booleans()) else text + 'select 1'
     else:
-        laid = draw(G.script(1, 3, comments=10))
+        # 2/8 CASE-heavy statements (the formatter options that only act on CASE, calls and operators get something to do)
+        laid = draw(G.script(1, 2, comments=6, stmt=G.case_heavy_select())) if mode in (2, 3) else draw(G.script(1, 3, comments=10))
         laid = sprinkle(laid, enc, draw)
         text = G.assemble(laid)[0]
     if enc in ('utf-8', 'utf-16') and draw(st.integers(0, 5)) == 0:
@@ -169,7 +170,7 @@ def cli_cases(draw):
     enc = draw(st.sampled_from(ENCODINGS))
     opts = {}
     names = sorted(FLAGS)
-    bits = draw(st.integers(0, (1 << len(names)) - 1))
+    bits = draw(O.bitset(len(names)))
     for i, n in enumerate(names):
         if bits >> i & 1:
             if n in ('keyword_case', 'identifier_case'):
